@@ -7,7 +7,7 @@ transition cover (shebang, open/close tags, inline HTML, halt-compiler payload, 
 for scaled programs that cross several 1024-entry allocation blocks."""
 import random
 
-from . import core, syntax, progs, lexgen, inputs, c01
+from . import core, syntax, progs, lexgen, inputs, c01, printerout
 
 
 def run(tier):
@@ -70,6 +70,15 @@ def run(tier):
             check.violation({"class": "print-differs", "family": fam, "context": (r.get("src_ctx") or "")[8:14]},
                             {"src": t["src"], "ver": t["ver"], "diff_at": r.get("print_diff_at"), "printed": r.get("printed_ctx"), "source": r.get("src_ctx")})
     check.cov["error_free_scanner_and_corpus_inputs"] = nclean
+    # the printer's output stage on source-only chunk sequences (PrinterOut.tla, invariant SourceVerbatim):
+    # nothing is ever inserted between tokens that all carry a position
+    behs = printerout.behaviours(check, 3 if tier == "quick" else 4, cars=("src",))
+    for b, want, got in printerout.replay(check, wp, behs):
+        sig = printerout.classify(b, want, got)
+        if sig.get("all_source"):
+            check.violation(sig, {"behaviour": b, "expected_writes": want, "observed_writes": got})
+    check.count(len(behs))
+    check.cov["output_stage_behaviours"] = len(behs)
     check.cov["traces_validated_against_impl"] = check.cov["evaluations"]
     check.assumptions += ["identity oracle: applies whenever zero errors are reported", "Syntax.tla / lexicon spellings define the input space"]
     return check.finish({"rule": "SyntaxGen derivations x %d layouts x versions; scaled programs (>1024 tokens); error-free Lexer.tla cases; corpus" % len(layouts)})
